@@ -45,3 +45,25 @@ From TrV Require Import Proofs.RevOptCompose.
 Theorem C09_full_declarative : C09_decl_statement.
 Proof. exact C09_decl_proved. Qed.
 Print Assumptions C09_full_declarative.
+
+Theorem C09_reverse_allnodes_scan_is_code : forall d p k, revall_scan_code d p k = rev_scan d p k true.
+Proof. exact revall_scan_tie. Qed.
+Print Assumptions C09_reverse_allnodes_scan_is_code.
+
+(* the ORIGINAL formal statement with the one hypothesis it lacked: q_minw p < MAX_INT.  Without it the statement is false
+   of the REFERENCE (not of the router): the reference map's "no label" sentinel -MAX_INT swallows labels when the minimum
+   waiting time is absurdly large (Example C09_original_needs_minw_bound in Proofs/FullStatements.v); the declarative
+   theorem C09_full_declarative needs no such bound. *)
+From TrV Require Import Proofs.FullStatements.
+Theorem C09_full_bounded_waiting : forall d s p rows, wf_data_b d = true -> find_scenario d (q_scenario p) = Some s ->
+    wf_tables_b d p [] rows = true -> wf_params_b p = true -> pos_hops_b d = true -> uniform_wait_b d = true -> q_fwd p = false ->
+    q_minw p < MAX_INT ->
+    match answer_access d s p rows with
+    | Ok (l, total) => map (fun a => (an_node a, an_time a - an_ttt a)) l = reach_map_rev_ref d s p rows /\
+                       total = Z.of_nat (length (d_nodes d)) /\
+                       forall a, In a l -> an_time a = q_time p
+    | NoRouting _ => reach_map_rev_ref d s p rows = []
+    | _ => False
+    end.
+Proof. exact C09_original. Qed.
+Print Assumptions C09_full_bounded_waiting.
